@@ -289,6 +289,22 @@ def dop_guard():
     return text, None, [f"compute_dops: the singularity test `{text}` is not a test of the condition number of Q"]
 
 
+def sun_constants():
+    """the constants of the two angles of planetary_motion.gsdtime_sun that are rational in the date, as the exact decimals
+    written in the source: (epoch offset of jd, vl0, vl rate, gstr0, gstr rate), problems"""
+    src = (REPO / "midgard" / "math" / "planetary_motion.py").read_text(encoding="utf-8")
+    num = r"([0-9][0-9_]*\.?[0-9_]*)"
+    m0 = re.search(r"jd = time\.mjd_int - " + num, src)
+    m1 = re.search(r"vl = np\.mod\(" + num + r" \+ " + num + r" \* jd, 360\)", src)
+    m2 = re.search(r"gstr = np\.mod\(" + num + r" \+ " + num + r" \* jd \+ 360 \* frac \+ 180, 360\)", src)
+    m3 = re.search(r"frac = time\.jd_frac\b", src)
+    if not (m0 and m1 and m2 and m3):
+        return None, ["planetary_motion.gsdtime_sun: the lines defining jd / frac / vl / gstr no longer have the form "
+                      "`np.mod(c0 + rate * jd [+ 360 * frac + 180], 360)`"]
+    f = lambda t: Fraction(t.replace("_", ""))   # noqa: E731
+    return (f(m0.group(1)), f(m1.group(1)), f(m1.group(2)), f(m2.group(1)), f(m2.group(2))), []
+
+
 def generate():
     """writes Generated/C20Tables.lean; returns (changed, info) with info for the harness"""
     units, checks, poles, doc, interps, problems = extract()
@@ -316,10 +332,16 @@ def generate():
           "/-- the limit that test puts on the condition number of `HᵀH` (`none`: no finite limit - only a design whose",
           "condition number is not finite, i.e. a singular one, is refused) -/",
           "def dopCondLimit : Option Rat := " + ("none" if glimit is None else f"some ({rat(glimit)})"), "",
-          "end Midgard.Generated.C20", ""]
+          "/-- `gsdtime_sun`: `jd = mjd_int - sunEpoch`, `vl = mod(sunVl0 + sunVlRate*jd, 360)`,",
+          "`gstr = mod(sunGst0 + sunGstRate*jd + 360*frac + 180, 360)` - the decimals of the source -/"]
+    sun, sproblems = sun_constants()
+    problems = problems + sproblems
+    for nm, v in zip(("sunEpoch", "sunVl0", "sunVlRate", "sunGst0", "sunGstRate"), sun or (0, 0, 0, 0, 0)):
+        o.append(f"def {nm} : Rat := {rat(v)}")
+    o += ["", "end Midgard.Generated.C20", ""]
     changed = write_if_changed("C20Tables.lean", "\n".join(o))
     return changed, {"units": units, "checks": checks, "poles": poles, "doc": doc, "interpolators": interps,
-                     "problems": problems, "dop_guard": (gtext, glimit)}
+                     "problems": problems, "dop_guard": (gtext, glimit), "sun": sun}
 
 
 if __name__ == "__main__":
